@@ -157,7 +157,6 @@ func typed(n Node) reflect.Value {
 	return v
 }
 
-
 func hasBin(n Node) bool {
 	if n.T == "bin" {
 		return true
@@ -730,12 +729,17 @@ func allStrings(alpha []byte, maxLen int, f func([]byte)) {
 // live: malformed frames against a running server with a healthy second connection
 func liveRecord(w *vtrace.Writer, res *vres.Result, frames []string, class string) {
 	var errs, handled int64
+	var smu sync.Mutex
+	var ssocks []sio.ServerSocket
 	srv, err := rig.NewServer(nil, func(io *sio.Server) {
 		io.Of("/").Use(func(s sio.ServerSocket, h *sio.Handshake) any {
 			s.OnEvent("echo", func(x int, ack func(int)) { ack(x) })
 			s.OnEvent("bin", func(b sio.Binary) { atomic.AddInt64(&handled, 1) })
 			s.OnEvent("m", func(m map[string]any) { atomic.AddInt64(&handled, 1) })
 			s.OnError(func(err error) { atomic.AddInt64(&errs, 1) })
+			smu.Lock()
+			ssocks = append(ssocks, s)
+			smu.Unlock()
 			return nil
 		})
 	})
@@ -777,6 +781,35 @@ func liveRecord(w *vtrace.Writer, res *vres.Result, frames []string, class strin
 		st, _ := rc.Send("42[\"noop\"]")
 		closed = st != 200
 	}
+	// when the offender was not cut off its socket must still be usable from the server's side: an emit with an
+	// acknowledgement returns, and one with a time-out reports the time-out (nobody answers)
+	offenderUsable := true
+	if !closed {
+		smu.Lock()
+		var off sio.ServerSocket
+		if len(ssocks) >= 2 {
+			off = ssocks[1]
+		}
+		smu.Unlock()
+		if off != nil {
+			ret, to := make(chan struct{}), make(chan struct{}, 1)
+			go func() {
+				off.Emit("probe", 1, func(int) {})
+				off.Timeout(100*time.Millisecond).Emit("probe", 2, func(err error, x int) { to <- struct{}{} })
+				close(ret)
+			}()
+			select {
+			case <-ret:
+				select {
+				case <-to:
+				case <-time.After(2 * time.Second):
+					offenderUsable = false
+				}
+			case <-time.After(2 * time.Second):
+				offenderUsable = false
+			}
+		}
+	}
 	rc.Abandon()
 	healthyWorks := echo(healthy, 41)
 	m2 := rig.NewManager(srv.URL(), []string{"polling"}, &sio.ManagerConfig{NoReconnection: true})
@@ -784,7 +817,7 @@ func liveRecord(w *vtrace.Writer, res *vres.Result, frames []string, class strin
 	laterWorks := ok2 && echo(later, 42)
 	m2.Close()
 	rec := vtrace.Rec{"ev": "live", "class": class, "frames": frames, "processAlive": true, "healthyWorks": healthyWorks, "laterWorks": laterWorks,
-		"offenderClosed": closed, "errorReported": atomic.LoadInt64(&errs) > 0, "accepted": atomic.LoadInt64(&handled) > 0}
+		"offenderClosed": closed, "errorReported": atomic.LoadInt64(&errs) > 0, "accepted": atomic.LoadInt64(&handled) > 0, "offenderUsable": offenderUsable}
 	w.Write([]vtrace.Rec{rec})
 	res.Case("live "+class, true)
 	res.Sample(rec)
@@ -884,6 +917,7 @@ func TestC10Live(t *testing.T) {
 	w.Write([]vtrace.Rec{{"ev": "reset", "scenario": 1, "cfg": "live"}})
 	// process level
 	for _, fs := range [][]string{
+		{`431["x"]`}, {`43424242["x"]`, `43424242["x"]`}, {`461-7[{"_placeholder":true,"num":0}]`, "bQUJD"},
 		{`40/abc`}, {`42/abc`}, {`451-["bin",{"_placeholder":true,"num":-4}]`, "bQUJD"}, {`451-["m",{"x":{"_placeholder":true,"num":-7}}]`, "bQUJD"},
 		{`4518446744073709551615-["bin"]`}, {`45x-["bin"]`}, {`42["bin",{"_placeholder":true,"num":0}]`}, {`42["echo","notanumber"]`}, {`4`}, {`49`},
 		{`451-["bin",{"_placeholder":true,"num":3}]`, "bQUJD"},
